@@ -1,4 +1,4 @@
 SPECIFICATION Spec
-CONSTANTS N = 5  P = 3  Locked = TRUE  PublishEarly = FALSE  MaxCalls = 4  MaxFails = 1  PublishOnFail = FALSE  Readers = {"r1", "r2"}
+CONSTANTS N = 5  P = 3  Locked = TRUE  PublishEarly = FALSE  MaxCalls = 4  MaxFails = 1  PublishOnFail = FALSE  PublishOnReadFail = FALSE  Readers = {"r1", "r2"}
 INVARIANTS LedgerUnaffected RespCommitted NoTornCache InOrder
 CHECK_DEADLOCK FALSE
